@@ -73,12 +73,23 @@ impl Extension {
             if let RecordName::Unknown { namespace, name } = &record.name {
                 Self::validate_name(namespace)?;
                 Self::validate_name(name)?;
+                Self::validate_name_start(name)?;
                 if !extensions.iter().any(|e| &e.namespace == namespace) {
                     Error::invalid(format!(
                         "Cannot find extension namespace {namespace} used by attribute {name}, please register extension first"
                     ))?
                 }
             }
+        }
+        Ok(())
+    }
+
+    /// XML names cannot start with a digit or a dash.
+    pub(crate) fn validate_name_start(name: &str) -> Result<()> {
+        if name.starts_with(|c: char| c.is_ascii_digit() || c == '-') {
+            Error::invalid(format!(
+                "Strings used as XML namespaces or attributes must not start with a digit or a dash: '{name}'"
+            ))?
         }
         Ok(())
     }
